@@ -4,6 +4,7 @@ import PytezosModel.Props.C27
 #print axioms C27.variants_spec
 #print axioms C27.variants_spec_string
 #print axioms C27.variants_ranks
+#print axioms C27.classify_defined
 #print axioms C27.empty_unspecified
 #print axioms C27.fromErrors_spec
 #print axioms C27.raised_is_most_specific
